@@ -34,11 +34,12 @@ def lit(rng, n, radix_mix=False):
     r = rng.random()
     if r < 0.4:
         return str(n)
+    zeros = "0" * (rng.choice([1, 2, 5]) if rng.random() < 0.2 else 0)
     if r < 0.6:
-        return ("0x" if rng.random() < 0.5 else "0X") + (("%x" if rng.random() < 0.5 else "%X") % n)
+        return ("0x" if rng.random() < 0.5 else "0X") + zeros + (("%x" if rng.random() < 0.5 else "%X") % n)
     if r < 0.8:
-        return ("0b" if rng.random() < 0.5 else "0B") + bin(n)[2:]
-    return "0" + oct(n)[2:] if n else "0"
+        return ("0b" if rng.random() < 0.5 else "0B") + zeros + bin(n)[2:]
+    return "0" + zeros + oct(n)[2:] if n else "0" + zeros
 
 
 def print_expr(e, rng=None, redundant=0.0, radix_mix=False, ctx_prec=99, right_side=False, sp=None):
@@ -221,6 +222,9 @@ def gen_signals(rng, n_in=None, n_out=None, n_bidir=None, wide=False, odd_names=
     used = set(s_["name"] for s_ in sigs)
     for i in range(many):
         base = rng.choice(["S%d" % i, "S%d" % i, "s%d" % i, "P%d_out" % i, "QQ", "Qq", "q", "AB", "A%d" % i, "CLK%d" % i, "T_%d" % i, "x%d" % i, "C%d" % i])
+        if rng.random() < 0.06 and sigs:
+            # a name with blank space around it can never be a header column; the trimmed name may well be one
+            base = rng.choice([" %s", "%s ", "\t%s", "%s\t "]) % rng.choice(sigs)["name"]
         x = rng.random()
         if x < 0.08 and sigs:
             base = rng.choice(sigs)["name"] + rng.choice(["_out", "_OUT", "x", "_"])
@@ -350,6 +354,8 @@ class ProgGen:
             # bits(k, e) spanning k columns
             if r.random() < self.p.get("pbits", 0.05):
                 k = r.randrange(0, min(4, len(self.cols) - i) + 1)
+                if len(self.cols) - i > 8 and r.random() < 0.5:
+                    k = r.choice([kk for kk in (8, 16, 31, 32, 33, 63, 64) if kk <= len(self.cols) - i])
                 ents.append(("bits", k, self.egen(scope)))
                 i += k
                 if k == 0:
@@ -401,7 +407,7 @@ class ProgGen:
                         # loop(k, k & 3): the bound is evaluated before k exists - a read of the OUTPUT k (if the device has
                         # one and reports it), otherwise the test does not bind
                         bound = ("bin", "&", ("var", v), ("num", 3))
-                    body = self.block(scope + [v], depth + 1, r.randrange(1, 4))
+                    body = self.block(scope + [v], depth + 1, r.randrange(1, 4)) if r.random() >= p.get("empty_body", 0.05) else []
                     if r.random() < p.get("own_counter", 0.08):
                         # the body re-binds the loop's own counter (upwards, so the loop still ends): the next pass continues from it
                         body.insert(r.randrange(0, len(body) + 1), ("let", v, ("bin", "+", ("var", v), ("num", r.choice([0, 1, 1, 2])))))
@@ -532,7 +538,16 @@ class Layout:
                 self.lines.append(self.rng.choice(["", "   ", "# only a comment", "\t#x"]))
 
     def row_text(self, ents):
-        return self.sp().join(self.entry(e) for e in ents)
+        texts = [self.entry(e) for e in ents]
+        if not self.fancy:
+            return " ".join(texts)
+        import re as _re
+        out = texts[0] if texts else ""
+        for prev, nxt in zip(texts, texts[1:]):
+            touch = (self.rng.random() < 0.2 and (_re.fullmatch(r"[1-9][0-9]*", prev) or prev.endswith(")"))
+                     and nxt[:1] in ("X", "x", "C", "c", "Z", "z", "("))
+            out += ("" if touch else self.sp()) + nxt
+        return out
 
     def stmts(self, body):
         for s in body:
